@@ -266,6 +266,45 @@ func cmdStopFlush(f hx.Flags, r *hx.Result) {
 		}
 		r.Eval(1)
 	}
+	// Stop while the worker is blocked on a slow appender: however long that takes, Stop must not
+	// return before everything accepted has been handed over (no shutdown deadline)
+	{
+		hold := time.Duration(f.Int("holdsec", 5)) * time.Second
+		gate := &sys.RecAppender{Gate: make(chan struct{}), Entered: make(chan int64, 64)}
+		lg := &log.AsyncLogger{
+			LoggerBase: log.LoggerBase{Level: log.LevelRange{MinLevel: log.InfoLevel, MaxLevel: log.MaxLevel}},
+			AppenderRefs: log.AppenderRefs{AppenderRefs: []*log.AppenderRef{{Appender: gate,
+				Level: log.LevelRange{MinLevel: log.InfoLevel, MaxLevel: log.MaxLevel}}}},
+			BufferSize: 100, BufferFullPolicy: log.BufferFullPolicyBlock,
+		}
+		desc := map[string]any{"scenario": "Stop with the worker blocked on a slow appender", "blocked_for": hold.String()}
+		if err := lg.Start(); err == nil {
+			for k := 1; k <= 4; k++ {
+				e := log.GetEvent()
+				e.Level, e.Time, e.Tag = log.InfoLevel, time.Now(), "t"
+				e.Fields = []log.Field{log.Int("id", int64(k))}
+				lg.Append(e)
+			}
+			<-gate.Entered
+			stopped := make(chan any, 1)
+			go func() { stopped <- hx.Catch(func() { lg.Stop() }) }()
+			select {
+			case <-stopped:
+				r.Violate("stop-early:slow-appender", desc, "Stop returned while the worker was still blocked in the appender; only %d of 4 accepted items had been handed over", gate.Len())
+			case <-time.After(hold):
+			}
+			close(gate.Gate)
+			select {
+			case <-stopped:
+			case <-time.After(10 * time.Second):
+				r.Violate("blocked:stop", desc, "Stop did not return after the appender was released")
+			}
+			if gate.Len() != 4 {
+				r.Violate("not-flushed:slow-appender", desc, "%d of 4 accepted items reached the appender", gate.Len())
+			}
+			r.Eval(4)
+		}
+	}
 	// direct construction of the rolling-file logger, sync and async, with and without separate file
 	for i, async := range []bool{false, true, false, true} {
 		sep := i >= 2
